@@ -173,7 +173,7 @@ def check_frames(h, frames, k, solve_time, stopped_at=None, source="captured"):
             if rs is not None:
                 V.append(Violation("records-frame0", f"{source}: frame 0 carries per-step records"))
             continue
-        if rs is None:
+        if rs is None or "dt" not in rs:
             V.append(Violation("records-missing", f"{source}: frame step {s} has no per-step records", step=s))
             prev = s
             continue
